@@ -140,6 +140,99 @@ fn run_one(cmd: &str, input: &[u8]) -> String {
       }
       format!("OK {}", serde_json::Value::Array(outs))
     }
+    "relocate" => {
+      // input: JSON {"dir": scratch directory, "docs": [[doc,..],..] (one commit each), "more": [doc,..], "query": text}
+      // an index is built on the file system at <dir>/a, the directory is copied to <dir>/b, and the COPY is searched,
+      // written to, committed and compacted.  Reported: the files of <dir>/a (name, length, crc) before and after, the
+      // hits of a, of the copy before its own writes, of the copy after <dir>/a has been deleted altogether.
+      let v: serde_json::Value = match serde_json::from_slice(input) { Ok(v) => v, Err(e) => return format!("ERR bad json {}", e) };
+      let base = PathBuf::from(v["dir"].as_str().unwrap_or(""));
+      if base.as_os_str().is_empty() { return "ERR no dir".to_string(); }
+      let a = base.join("a");
+      let b = base.join("b");
+      let _ = std::fs::remove_dir_all(&base);
+      if let Err(e) = std::fs::create_dir_all(&a) { return format!("ERR mkdir {}", e); }
+      let mk = |p: &PathBuf| searchlite_core::api::types::IndexOptions {
+        path: p.clone(), create_if_missing: true, enable_positions: true, bm25_k1: 0.9, bm25_b: 0.4,
+        storage: searchlite_core::api::types::StorageType::Filesystem,
+      };
+      let listing = |p: &PathBuf| -> Vec<(String, u64, u64)> {
+        let mut out = Vec::new();
+        if let Ok(rd) = std::fs::read_dir(p) {
+          for e in rd.flatten() {
+            let data = std::fs::read(e.path()).unwrap_or_default();
+            use std::hash::Hasher;
+            let mut h = std::collections::hash_map::DefaultHasher::new();
+            h.write(&data);
+            out.push((e.file_name().to_string_lossy().to_string(), data.len() as u64, h.finish()));
+          }
+        }
+        out.sort();
+        out
+      };
+      let q = v["query"].as_str().unwrap_or("rust").to_string();
+      let hits_of = |idx: &searchlite_core::api::Index| -> Result<Vec<String>, String> {
+        let req: searchlite_core::api::types::SearchRequest = serde_json::from_value(serde_json::json!({"query": q, "limit": 100, "return_stored": false, "highlight_field": null, "execution": "bm25"})).map_err(|e| e.to_string())?;
+        let r = idx.reader().map_err(|e| format!("reader: {}", e))?;
+        let res = r.search(&req).map_err(|e| format!("search: {}", e))?;
+        Ok(res.hits.into_iter().map(|h| h.doc_id).collect())
+      };
+      let empty = Vec::new();
+      let idx_a = match searchlite_core::api::Index::create(&a, searchlite_core::api::types::Schema::default_text_body(), mk(&a)) { Ok(i) => i, Err(e) => return format!("ERR create {}", e) };
+      for batch in v["docs"].as_array().unwrap_or(&empty) {
+        let mut w = match idx_a.writer() { Ok(w) => w, Err(e) => return format!("ERR writer {}", e) };
+        for d in batch.as_array().unwrap_or(&empty) {
+          let doc: searchlite_core::api::types::Document = match serde_json::from_value(serde_json::json!({"fields": d})) { Ok(d) => d, Err(e) => return format!("ERR doc {}", e) };
+          if let Err(e) = w.add_document(&doc) { return format!("ERR add {}", e); }
+        }
+        if let Err(e) = w.commit() { return format!("ERR commit {}", e); }
+      }
+      let hits_a = hits_of(&idx_a);
+      drop(idx_a);
+      // copy the directory (flat: segment files, manifest, log)
+      if let Err(e) = std::fs::create_dir_all(&b) { return format!("ERR mkdir b {}", e); }
+      if let Ok(rd) = std::fs::read_dir(&a) {
+        for e in rd.flatten() {
+          if e.path().is_file() { if let Err(err) = std::fs::copy(e.path(), b.join(e.file_name())) { return format!("ERR copy {}", err); } }
+        }
+      }
+      let before = listing(&a);
+      let res = catch_unwind(AssertUnwindSafe(|| -> serde_json::Value {
+        let idx_b = match searchlite_core::api::Index::open(mk(&b)) { Ok(i) => i, Err(e) => return serde_json::json!({"open_copy": format!("failed: {}", e)}) };
+        let hits_b = hits_of(&idx_b);
+        let mut log: Vec<String> = Vec::new();
+        match idx_b.writer() {
+          Ok(mut w) => {
+            for d in v["more"].as_array().unwrap_or(&empty) {
+              match serde_json::from_value::<searchlite_core::api::types::Document>(serde_json::json!({"fields": d})) {
+                Ok(doc) => { if let Err(e) = w.add_document(&doc) { log.push(format!("add failed: {}", e)); } }
+                Err(e) => log.push(format!("doc: {}", e)),
+              }
+            }
+            if let Err(e) = w.commit() { log.push(format!("commit failed: {}", e)); }
+          }
+          Err(e) => log.push(format!("writer failed: {}", e)),
+        }
+        if let Err(e) = idx_b.compact() { log.push(format!("compact failed: {}", e)); }
+        let hits_b2 = hits_of(&idx_b);
+        drop(idx_b);
+        let after = listing(&a);
+        // the original, reopened after the copy was worked on
+        let hits_a2 = match searchlite_core::api::Index::open(mk(&a)) { Ok(i) => hits_of(&i), Err(e) => Err(format!("open original: {}", e)) };
+        // the copy on its own: remove the original altogether
+        let _ = std::fs::remove_dir_all(&a);
+        let hits_b3 = match searchlite_core::api::Index::open(mk(&b)) { Ok(i) => hits_of(&i), Err(e) => Err(format!("open copy alone: {}", e)) };
+        serde_json::json!({"open_copy": "ok", "hits_copy": hits_b, "log": log, "hits_copy_after_writes": hits_b2, "original_after": after, "hits_original_after": hits_a2, "hits_copy_alone": hits_b3})
+      }));
+      let _ = std::fs::remove_dir_all(&base);
+      match res {
+        Ok(val) => format!("OK {}", serde_json::json!({"hits_original": hits_a, "original_before": before, "run": val})),
+        Err(p) => {
+          let msg = p.downcast_ref::<String>().cloned().or_else(|| p.downcast_ref::<&str>().map(|s| s.to_string())).unwrap_or_default();
+          format!("OK {}", serde_json::json!({"hits_original": hits_a, "original_before": before, "panic": msg}))
+        }
+      }
+    }
     "corrupt" => {
       // input: JSON {"docs": [doc,..], "flips": [[file, offset, xor],..]}  file in terms|postings|docstore|fast|meta
       // one segment is committed on in-memory storage; each flip alters ONE byte of one segment file (offset taken modulo
